@@ -106,7 +106,8 @@ def local_aliases(fn: ast.AST) -> dict[str, ast.AST]:
         if c != 1 or v is None or k in params:
             continue
         v = strip_cast(v)
-        if isinstance(v, ast.Call) and call_name(v) in ("current_task", "get_current_task") and not v.args:
+        if isinstance(v, ast.Call) and call_name(v) in ("current_task", "get_current_task", "get_async_backend") and not v.args and not v.keywords \
+                and (call_name(v) != "get_async_backend" or isinstance(v.func, ast.Name)):
             out[k] = v
         elif isinstance(v, ast.Attribute) and not contains(v, (ast.Call, ast.Subscript)):
             chain_attrs = {x.attr for x in ast.walk(v) if isinstance(x, ast.Attribute)}
@@ -115,6 +116,28 @@ def local_aliases(fn: ast.AST) -> dict[str, ast.AST]:
                 base = base.value
             if isinstance(base, ast.Name) and counts.get(base.id, 0) == 0 and attrs_stable(k, chain_attrs):
                 out[k] = _load(v)
+    # aliases of aliases (`state = self._state; receivers = state.waiting_receivers`): resolve to the full chain
+    changed = True
+    rounds = 0
+    while changed and rounds < 5:
+        changed = False
+        rounds += 1
+        for k, c in counts.items():
+            if k in out or c != 1 or k in params:
+                continue
+            v = rhs.get(k)
+            if v is None:
+                continue
+            v = strip_cast(v)
+            if isinstance(v, (ast.Attribute, ast.Name)) and not contains(v, (ast.Call, ast.Subscript)):
+                chain_attrs = {x.attr for x in ast.walk(v) if isinstance(x, ast.Attribute)}
+                base = v
+                while isinstance(base, ast.Attribute):
+                    base = base.value
+                if isinstance(base, ast.Name) and base.id in out and attrs_stable(k, chain_attrs) and (
+                        isinstance(out[base.id], ast.Attribute) or (isinstance(out[base.id], ast.Call) and call_name(out[base.id]) == "get_async_backend")):
+                    out[k] = subst(_load(v), {base.id: out[base.id]})
+                    changed = True
     # a temporary for an attribute of a variable that the function itself rebinds (`parent = scope._parent_scope ... scope = parent`,
     # the hand-written form of `scope = scope._parent_scope`): t stands for `b.chain` at every use provided that (i) every use of t
     # follows its single definition inside the same block (so the definition dominates it, also per loop iteration), (ii) no store
@@ -130,7 +153,7 @@ def local_aliases(fn: ast.AST) -> dict[str, ast.AST]:
         base = v
         while isinstance(base, ast.Attribute):
             base = base.value
-        if not (isinstance(base, ast.Name) and counts.get(base.id, 0) > 0 and base.id != k):
+        if not (isinstance(base, ast.Name) and counts.get(base.id, 0) > 0 and base.id != k and base.id not in out):
             continue
         if any(a_ in attr_stores for a_ in {x.attr for x in ast.walk(v) if isinstance(x, ast.Attribute)}):
             continue
@@ -166,27 +189,6 @@ def local_aliases(fn: ast.AST) -> dict[str, ast.AST]:
                 okk = False
         if okk:
             out[k] = _load(v)
-    # aliases of aliases (`state = self._state; receivers = state.waiting_receivers`): resolve to the full chain
-    changed = True
-    rounds = 0
-    while changed and rounds < 5:
-        changed = False
-        rounds += 1
-        for k, c in counts.items():
-            if k in out or c != 1 or k in params:
-                continue
-            v = rhs.get(k)
-            if v is None:
-                continue
-            v = strip_cast(v)
-            if isinstance(v, (ast.Attribute, ast.Name)) and not contains(v, (ast.Call, ast.Subscript)):
-                chain_attrs = {x.attr for x in ast.walk(v) if isinstance(x, ast.Attribute)}
-                base = v
-                while isinstance(base, ast.Attribute):
-                    base = base.value
-                if isinstance(base, ast.Name) and base.id in out and attrs_stable(k, chain_attrs) and isinstance(out[base.id], ast.Attribute):
-                    out[k] = subst(_load(v), {base.id: out[base.id]})
-                    changed = True
     return out
 
 
